@@ -116,6 +116,7 @@ type subRec struct {
 	closed     atomic.Bool // reader saw the channel closed
 	exitSeen   atomic.Bool // its forwarder passed batcher.forwarder.exit
 	afterClose bool        // Subscribe was called after Close was called (may be dropped silently)
+	sure       atomic.Bool // Subscribe RETURNED before the first Close call: certainly accepted
 	stop       chan struct{}
 }
 
@@ -161,6 +162,7 @@ type World struct {
 	closeCalled  bool
 	closePending atomic.Int32 // Close calls that have not returned
 	closeRet     atomic.Bool  // some Close call has returned
+	firstClose   atomic.Bool  // a Close call has been made (set atomically with its ccall event)
 	wg           sync.WaitGroup
 
 	subAfterClose bool
@@ -353,7 +355,7 @@ func (w *World) departuresDone() bool {
 		w.mu.Lock()
 		c := s.cancelled
 		w.mu.Unlock()
-		if (c || (cr && !s.afterClose)) && !s.closed.Load() {
+		if (c || (cr && s.sure.Load())) && !s.closed.Load() {
 			return false
 		}
 	}
@@ -491,8 +493,13 @@ func (w *World) exec(o Op) {
 		go func() {
 			defer w.guard("Subscribe")
 			w.b.Subscribe(ctx, s.ch)
+			w.mu.Lock()
 			s.returned.Store(true)
-			w.add(Ev{K: "sret"})
+			s.sure.Store(!w.firstClose.Load())
+			if !w.dead.Load() {
+				w.evs = append(w.evs, Ev{K: "sret", Now: w.nowNs()})
+			}
+			w.mu.Unlock()
 			w.subPending.Add(-1)
 		}()
 		w.settle(opGrace)
@@ -515,7 +522,7 @@ func (w *World) exec(o Op) {
 		}
 	case "cancel":
 		subs := w.subsSnapshot()
-		if o.Sub >= len(subs) || !subs[o.Sub].returned.Load() || subs[o.Sub].cancelled || subs[o.Sub].afterClose {
+		if o.Sub >= len(subs) || !subs[o.Sub].returned.Load() || subs[o.Sub].cancelled || !subs[o.Sub].sure.Load() {
 			w.skipped++
 			return
 		}
@@ -555,8 +562,14 @@ func (w *World) exec(o Op) {
 		}
 		for k := 0; k < n; k++ {
 			w.closeCalled = true
+			if w.subPending.Load() > 0 {
+				w.subAfterClose = true // the pending Subscribe may be dropped: later ids are not predictable
+			}
 			w.closePending.Add(1)
-			w.add(Ev{K: "ccall"})
+			w.mu.Lock()
+			w.firstClose.Store(true)
+			w.evs = append(w.evs, Ev{K: "ccall", Now: w.nowNs()})
+			w.mu.Unlock()
 			go func() {
 				defer w.guard("Close")
 				w.b.Close()
@@ -585,8 +598,8 @@ func (w *World) exec(o Op) {
 }
 
 // closeReturned is run by every Close call right after b.Close() returned. Atomically with the
-// logging of its `cret` it looks at the channel of every subscriber accepted before the first Close
-// call: closed (fine), still open (`open` event: this Close returned before the channel was
+// logging of its `cret` it looks at the channel of every subscriber whose Subscribe had returned
+// before the first Close call (one that overlaps Close may legitimately be dropped): closed (fine), still open (`open` event: this Close returned before the channel was
 // closed), or a forwarder is still sending on it (the value is logged as received AFTER the cret).
 func (w *World) closeReturned() {
 	if w.dead.Load() {
@@ -597,7 +610,7 @@ func (w *World) closeReturned() {
 	now := w.nowNs()
 	var late []Ev
 	for _, s := range w.subs {
-		if !s.returned.Load() || s.afterClose || s.closed.Load() {
+		if !s.sure.Load() || s.closed.Load() {
 			continue
 		}
 		select {
